@@ -75,7 +75,11 @@ Definition run_inv (s : state) : Prop :=
   exists w nx, running s = Ready w nx /\ nx = lenN (chain s) /\ w_from w = aligned nx /\
                covers w (chain s) (w_from w) nx.
 
-Definition rinv (s : state) : Prop := disk_inv s /\ run_inv s.
+(* disk: persisted windows are keyed by aligned block numbers and lie entirely below the head *)
+Definition keys_inv (s : state) : Prop :=
+  forall k pw, lookup k (persisted s) = Some pw -> k mod W = 0 /\ k + W <= lenN (chain s).
+
+Definition rinv (s : state) : Prop := disk_inv s /\ keys_inv s /\ run_inv s.
 
 Definition cache_fresh (s : state) : Prop :=
   forall ws c, lookup ws (cache s) = Some c -> lookup ws (persisted s) = Some c.
@@ -159,7 +163,7 @@ Lemma lookup_window_covers s n :
   exists w, lookup_window s (aligned n) = Some w /\
             forall k, In k (block_keys (nthN n (chain s) [])) -> In k (col w n).
 Proof.
-  intros [Hd [w [nx [Hr [Hnx [Hf Hc]]]]]] Hfresh Hn.
+  intros [Hd [_ [w [nx [Hr [Hnx [Hf Hc]]]]]]] Hfresh Hn.
   unfold lookup_window. rewrite Hr.
   destruct (w_from w =? aligned n) eqn:E.
   - apply N.eqb_eq in E. exists w. split; auto. apply Hc. pose proof (aligned_le n). lia.
